@@ -50,6 +50,22 @@ def test_read_request_value_without_python_counterpart_is_a_protocol_error() -> 
     assert excinfo.value.error_type == "ProtocolError"
 
 
+def test_read_request_batch_failing_validation_is_a_protocol_error() -> None:
+    """A request batch whose contents fail IPC validation is refused as malformed, with the stream consumed."""
+    import pytest
+
+    from vgi_rpc.rpc import RpcError
+    from vgi_rpc.rpc._wire import _read_request
+
+    schema = pa.schema([pa.field("day", pa.date64(), nullable=False)])
+    body = write_request("bind", schema, {"day": 2**62})  # not a whole number of days
+    stream = BytesIO(body + b"next-request")
+    with pytest.raises(RpcError, match="Invalid request batch") as excinfo:
+        _read_request(stream)
+    assert excinfo.value.error_type == "ProtocolError"
+    assert stream.read() == b"next-request"
+
+
 def test_write_request_preserves_protocol_version() -> None:
     """A supplied protocol_version is stamped on the request batch metadata."""
     body = write_request("init", _SCHEMA, {"request": b"x"}, protocol_version="2.3")
